@@ -8,20 +8,23 @@ Local Open Scope N_scope.
 
 Definition tag (t : string) (s : str) : str := lit t ++ s.
 
+(* how the userinfo is read off the netloc: netloc.rsplit("@", 1), then auth.split(":", 1) *)
+Definition auth_of (nl : str) : option str * option str * str :=
+  match rcut [64] nl with
+  | Some (auth, rest) =>
+      if mem 58 auth then
+        match splitn [58] auth 1 with
+        | [u; p] => (Some u, Some p, rest)
+        | _ => (Some auth, None, rest)
+        end
+      else (Some auth, None, rest)
+  | None => (None, None, nl)
+  end.
+
 (* lru_stems_from_parsed_url; `t` is the suffix trie used when suffix_aware *)
 Definition lru_stems_from_parsed (t : snode) (r : SplitResult) (suffix_aware : bool) : list str :=
   let s_scheme := match scheme r with [] => [] | s => [tag "s:" s] end in
-  let '(user, password, nl) :=
-    match rcut [64] (netloc r) with           (* netloc.rsplit("@", 1) *)
-    | Some (auth, nl) =>
-        if mem 58 auth then
-          match splitn [58] auth 1 with
-          | [u; p] => (Some u, Some p, nl)
-          | _ => (Some auth, None, nl)
-          end
-        else (Some auth, None, nl)
-    | None => (None, None, netloc r)
-    end in
+  let '(user, password, nl) := auth_of (netloc r) in
   let parts := map oget (re_split PORT_SPLITTER_f PORT_SPLITTER PORT_SPLITTER_g nl None) in
   let s_port := match parts with [_; port] => [tag "t:" port] | _ => [] end in
   let host0 := match parts with h :: _ => h | [] => [] end in
